@@ -36,7 +36,7 @@ CHECKS.update({
   text="store part: Store.Add(m') for a re-declared metric from an arbitrary valid store - kept declaration keeps datum objects and pending expiry, changed keys drop data, a refused Add leaves the store unchanged, the old metric never stays next to the new one (one known finding listed: type/source change leaves a duplicate); loader part: every history of 3 (thorough 4) Runtime.CompileAndRun calls over {same text, comment-only edit, other program, syntax error, registration refused by a kind conflict, keys changed, declaration moved} and every history of directory edits + LoadAllPrograms - identical source changes nothing (same VM, same store objects, no load counted), a failed compile or refused registration leaves store and running VM exactly as they were, a kept declaration keeps its datum, a replaced VM is stopped",
   note="store step as C06; loader histories enumerated by forking over a model file system with the working tree's compiler's answers replayed (bridge); lines and GC during a reload are outside (C20, C11)"),
  "C22": dict(level="model_checking", ref="DESIGN.md 4 C22",
-  text="metamorphic check of metricToGraphite/Statsd/Collectd/Varz on the real code: the record for label set 2 of a two-label-set metric equals the record of a metric holding only that label set, for every kind/type incl. graphite histograms, with symbolic values, timestamps, observations and label letters; records of different label sets differ (records compared as sets of lines: graphite histogram lines are written in Go map order)",
+  text="metamorphic check of metricToGraphite/Statsd/Collectd/Varz on the real code: the record for label set 2 of a two-label-set metric equals the record of a metric holding only that label set, for every kind/type incl. graphite histograms, with symbolic values, timestamps, observations and label letters; records of different label sets differ (records compared as sets of lines: graphite histogram lines are written in Go map order); graphite/statsd/collectd records also equal a reference record; the push path (writeSocketMetrics) writes one record per label set, each in a write of its own; label values are any printable non-separator byte",
   note="fmt.Sprintf etc. are engine models producing opaque formatted-number pieces (equal iff arguments equal); JSON export excluded (encoding/json reflection not encodable)"),
 })
 
@@ -59,11 +59,14 @@ CHECKS.update({
 })
 
 CHECKS.update({
+ "C19": dict(level="model_checking", ref="DESIGN.md 9 C19",
+  text="bounded model checking of a one-shot run of the real runtime (runtime.New: program loading from the model directory, dispatcher, VM goroutines) and the real tailer in one-shot mode (glob, file streams, LineReader) wired as mtail.New wires them (one unbuffered channel, one WaitGroup; Run = wg.Wait): 1..2 log files whose 0..3 (thorough 4) bytes are symbolic, two programs; after the run each program has counted exactly the lines of the property's sentence, in total and per file, and no goroutine is left",
+  note="the exporter, HTTP server and Prometheus registry of mtail.New are not started; one deterministic schedule; programs without patterns (so the order of lines within a file is not observed); file order across files is whatever the glob returns"),
  "C18": dict(level="model_checking", ref="DESIGN.md 4 C18",
   text="bounded model checking of the real Tailer (New, AddPattern, the pattern poll goroutines, doPatternGlob, Ignore, TailPath, the forwarding goroutines) and the real file streams over the model file system, with two overlapping glob patterns and an ignore expression: every history of 2 edits over a universe of five fixed names plus one file whose name is 1..4 (thorough 5) symbolic bytes, each edit followed by a pattern poll and a stream poll; then the tailer's streams are exactly the existing regular files that the property's sentence (written over the name's bytes) makes eligible, and a line appended to each arrives exactly once",
   note="filepath.Glob lists the model directory and asks the real filepath.Match (interpreted from its source) about every name; url.Parse on a symbolic path is an engine model (no scheme, control character = error, path ends at the first ? or #, escapes excluded: names with %% are outside); the ignore expression is decided on the symbolic name for anchored literals; goroutines under the deterministic scheduler, settled after each wake-up"),
  "C20": dict(level="model_checking", ref="DESIGN.md 4 C20",
-  text="bounded model checking of one reload of a running program in the real runtime (runtime.New's dispatcher goroutine, CompileAndRun, the VM goroutines, the real store) with lines sent on the real channel: the next line arrives at a solver-chosen point among the points at which the reloading goroutine releases a runtime or store lock, or after the reload, and a VM that has received a line may be held back before it processes it; every line is counted by exactly one version, old before new, a kept declaration shows every line's effect in the store (a counter counts every line, a gauge ends with the last line's value), the replaced version stops, and closing the input stops everything",
+  text="bounded model checking of one reload of a running program, beside a second program that is not reloaded, in the real runtime (runtime.New's dispatcher goroutine, CompileAndRun, the VM goroutines, the real store) with lines sent on the real channel: the next line arrives at a solver-chosen point among the points at which the reloading goroutine releases a runtime or store lock, or after the reload, or is already in flight (handed to the dispatcher) when the reload begins, and a VM that has received a line may be held back before it processes it; every line is counted by exactly one version, old before new, a kept declaration shows every line's effect in the store (a counter counts every line, a gauge ends with the last line's value), the other program sees every line once, the replaced version stops, and closing the input stops everything",
   note="interleaving is explored for the reloading goroutine only, at its lock-release points (handleMu, programErrorMu, insertMu, searchMu); dispatcher and VMs run to quiescence after each line except for up to 1 (thorough 2) hold-backs of a VM at the entry of ProcessLogLine; programs: an unconditional counter (scalar or with a constant label) and a gauge set from the line; one reload, 2..3 (thorough 4) lines; natively replayed by rewriting the same Unlock call sites to call the harness hook"),
  "C07": dict(level="model_checking", ref="DESIGN.md 4 C07",
   text="bounded symbolic execution of the real vm.New/ProcessLogLine/execute (Strptime, Settime, Timestamp), VM.ParseTime, the groupcache LRU memo and BaseDatum.stamp on compiled programs made of strptime/settime/plain blocks: after an arbitrary earlier line, one line with symbolic value bytes (8-digit dates under two layouts, 15-byte syslog stamps), symbolic settime operand (any int64), syslog-current-year on/off, zone none/UTC+9/UTC-3:30, symbolic wall clock; timestamp() and the stamps of data updated on the line equal the instant the property defines, a runtime error is raised iff the value does not parse, whatever was parsed before",
@@ -97,7 +100,6 @@ CHECKS.update({
 NOT_APPLICABLE = {
  "C03": "whole compiler front end on arbitrary bytes: channel-driven lexer, goyacc tables, HM unification over a pointer graph, regexp/syntax - symbolic bytes fork at every character class and reach stdlib parsers that cannot be encoded (DESIGN.md 4 C03)",
  "C17": "behaviour lives in kernel pipe/socket semantics and real goroutine interleavings; a faithful stub would re-implement net (DESIGN.md 4 C17)",
- "C19": "whole-program start-up/shutdown across five packages under arbitrary scheduling (DESIGN.md 4 C19)",
  "C23": "quantifies only over program structure; no value dimension for a solver - degenerates to enumeration (DESIGN.md 4 C23)",
  "C24": "quantifies only over program structure; no value dimension for a solver - degenerates to enumeration (DESIGN.md 4 C24)",
 }
